@@ -13,6 +13,7 @@ import ScalesModel.Core.Run
 import ScalesModel.Adapter.Async
 import ScalesModel.Adapter.Heap
 import ScalesModel.Adapter.FrontEnd
+import ScalesModel.Adapter.E2E
 import ScalesModel.Adapter.TagPool
 open Scales
 
@@ -21,6 +22,9 @@ def components : List Comp := [
   ⟨"heap3", (Scales.Heap.comp 3).run⟩,
   ⟨"heap4", (Scales.Heap.comp 4).run⟩,
   ⟨"frontend", Scales.FrontEnd.comp.run⟩,
+  ⟨"e2e1", (Scales.E2E.comp 1).run⟩,
+  ⟨"e2e2", (Scales.E2E.comp 2).run⟩,
+  ⟨"e2e12", (Scales.E2E.comp 12).run⟩,
   ⟨"tagpool", Scales.TagPool.comp.run⟩
 ]
 
